@@ -19,8 +19,8 @@ open Circomspect.Ir
 
 /-- `Degree::{add, mul, …}` -/
 def degOp (op : String) (a b : Nat) : Nat :=
-  if op = "add" then max a b
-  else if op = "sub" then max a b
+  if op = "add" then (if a = 2 ∧ b = 2 then 3 else max a b)      -- after the `fix:` for the sum of two products
+  else if op = "sub" then (if a = 2 ∧ b = 2 then 3 else max a b)
   else if op = "mul" then (if a = 0 then b else if b = 0 then a else if a = 1 ∧ b = 1 then 2 else 3)
   else if op = "div" then (if b = 0 then a else 3)
   else (if a = 0 ∧ b = 0 then 0 else 3)     -- pow, idiv, mod, shifts, comparisons, bitwise, boolean
